@@ -18,6 +18,9 @@ func (d *Data) GetLabelAtScaledPoint(v dvid.VersionID, pt dvid.Point, scale uint
 	if !ok {
 		return 0, fmt.Errorf("Can't determine block of point %s", pt)
 	}
+	if pt.NumDims() != 3 {
+		return 0, fmt.Errorf("point %s must be a 3d coordinate", pt)
+	}
 	blockSize := d.BlockSize()
 	bcoord, ok := coord.Chunk(blockSize).(dvid.ChunkPoint3d)
 	if !ok {
